@@ -1,6 +1,7 @@
 (** Proofs about the runner model (Model/Runner.v). *)
 From CSS Require Import Lib.Base Model.Runner.
 From Coq Require Import Arith.
+Local Open Scope nat_scope.
 
 (** * classification *)
 
@@ -46,6 +47,15 @@ Proof. intro H. unfold set_checked. destruct o as [[rc te] ie]. cbn [res]. now a
 Lemma trace_set_checked s id a o : trace (set_checked s id a o) = trace s ++ [mkEv id a o].
 Proof. unfold set_checked. destruct o as [[rc te] ie]. reflexivity. Qed.
 
+Lemma NoDup_app_intro {A} (l1 l2 : list A) :
+  NoDup l1 -> NoDup l2 -> (forall x, In x l1 -> In x l2 -> False) -> NoDup (l1 ++ l2).
+Proof.
+  induction l1 as [|a l1 IH]; intros H1 H2 H; cbn; auto.
+  inversion H1; subst. constructor.
+  - intro X. apply in_app_or in X. destruct X as [X|X]; [contradiction|]. apply (H a); cbn; auto.
+  - apply IH; auto. intros x X1 X2. apply (H x); cbn; auto.
+Qed.
+
 Section Spec.
   Variable ts : nat -> test.
   Variable chk : nat -> nat -> outcome3.
@@ -67,14 +77,15 @@ Section Spec.
      (exists n, res s j = classify (chk j n) /\ deps_pass s j)).
 
   Lemma LocalOK_ext s s' j :
-    res s' j = res s j -> (forall d, In d (deps (ts j)) -> res s' d = res s d) ->
+    res s' j = res s j ->
+    (forall d, In d (deps (ts j)) -> implemented (ts d) = true -> res s' d = res s d) ->
     LocalOK s j -> LocalOK s' j.
   Proof.
     intros Hj Hd [Hdone H]. split.
-    - intros d Hin Himp. rewrite (Hd d Hin). now apply Hdone.
+    - intros d Hin Himp. rewrite (Hd d Hin Himp). now apply Hdone.
     - destruct H as [[Hr [d [Hin [Himp Hnp]]]] | [n [Hr Hp]]].
-      + left. split; [congruence|]. exists d. rewrite (Hd d Hin). auto.
-      + right. exists n. split; [congruence|]. intros d Hin Himp. rewrite (Hd d Hin). now apply Hp.
+      + left. split; [congruence|]. exists d. rewrite (Hd d Hin Himp). auto.
+      + right. exists n. split; [congruence|]. intros d Hin Himp. rewrite (Hd d Hin Himp). now apply Hp.
   Qed.
 
   (** ** what one (possibly nested) computation under top-level test [id] does
@@ -86,7 +97,7 @@ Section Spec.
        (exists n, ev_out e = chk (ev_id e) n) /\ res s' (ev_id e) <> RNotRun /\
        ev_dep e = true /\ res s (ev_id e) = RNotRun /\ rank (ev_id e) < rank id) /\
     (forall j, j <> id -> res s' j <> res s j ->
-       res s j = RNotRun /\ rank j < rank id /\ LocalOK s' j).
+       res s j = RNotRun /\ rank j < rank id /\ implemented (ts j) = true /\ LocalOK s' j).
 
   Lemma Frame_refl id s : Frame id s s [].
   Proof.
@@ -100,4 +111,545 @@ Section Spec.
     destruct (result_eq_dec (res s' j) (res s j)) as [E|E]; [exact E|].
     destruct (H j Hj E) as [E' _]. contradiction.
   Qed.
+
+  Lemma Frame_keeps_notimpl id s s' new j :
+    Frame id s s' new -> j <> id -> implemented (ts j) = false -> res s' j = res s j.
+  Proof.
+    intros (_ & _ & _ & H) Hj Hn.
+    destruct (result_eq_dec (res s' j) (res s j)) as [E|E]; [exact E|].
+    destruct (H j Hj E) as (_ & _ & E' & _). congruence.
+  Qed.
+
+  Lemma Frame_mono id s s' new j :
+    Frame id s s' new -> j <> id -> res s' j = RNotRun -> res s j = RNotRun.
+  Proof.
+    intros HF Hj Hn.
+    destruct (result_eq_dec (res s j) RNotRun) as [E|E]; [exact E|].
+    rewrite (Frame_keeps _ _ _ _ _ HF Hj E) in Hn. contradiction.
+  Qed.
+
+  Lemma Frame_trans id s s1 s2 n1 n2 :
+    Frame id s s1 n1 -> Frame id s1 s2 n2 -> Frame id s s2 (n1 ++ n2).
+  Proof.
+    intros F1 F2.
+    pose proof F1 as (T1 & D1 & E1 & C1). pose proof F2 as (T2 & D2 & E2 & C2).
+    assert (Hne : forall e, In e n1 -> ev_id e <> id).
+    { intros e He. destruct (E1 e He) as (_ & _ & _ & _ & Hr). intro X. rewrite X in Hr. lia. }
+    split; [|split; [|split]].
+    - rewrite T2, T1. now rewrite app_assoc.
+    - rewrite map_app. apply NoDup_app_intro; auto.
+      intros x H1 H2. apply in_map_iff in H1. destruct H1 as [e1 [X1 I1]].
+      apply in_map_iff in H2. destruct H2 as [e2 [X2 I2]]. subst x.
+      destruct (E1 e1 I1) as (_ & Hnr & _). destruct (E2 e2 I2) as (_ & _ & _ & Hr & _).
+      rewrite X2 in Hr. contradiction.
+    - intros e He. apply in_app_or in He. destruct He as [He|He].
+      + destruct (E1 e He) as (A & B & C & D & R). repeat split; auto.
+        rewrite (Frame_keeps _ _ _ _ _ F2 (Hne e He) B). exact B.
+      + destruct (E2 e He) as (A & B & C & D & R). repeat split; auto.
+        apply (Frame_mono _ _ _ _ _ F1); auto. intro X. rewrite X in R. lia.
+    - intros j Hj Hch.
+      destruct (result_eq_dec (res s1 j) (res s j)) as [E|E].
+      + rewrite <- E in Hch. destruct (C2 j Hj Hch) as (A & B & I & L). rewrite E in A. auto.
+      + destruct (C1 j Hj E) as (A & B & I & L). split; [exact A|]. split; [exact B|]. split; [exact I|].
+        destruct (result_eq_dec (res s2 j) (res s1 j)) as [E2'|E2'].
+        * apply (LocalOK_ext s1); auto.
+          intros d Hin Himp.
+          assert (d <> id) by (intro Y; subst d; specialize (Hrank _ _ Hin); lia).
+          apply (Frame_keeps _ _ _ _ _ F2); auto.
+          destruct L as [Hdone _]. now apply Hdone.
+        * destruct (C2 j Hj E2') as (_ & _ & _ & L2). exact L2.
+  Qed.
+
+  (** ** specification of one [run] *)
+  Definition EvOK (s s' : state) (id : nat) (asdep : bool) (e : event) : Prop :=
+    (exists n, ev_out e = chk (ev_id e) n) /\ res s' (ev_id e) <> RNotRun /\
+    ((ev_id e = id /\ ev_dep e = asdep) \/
+     (ev_dep e = true /\ res s (ev_id e) = RNotRun /\ rank (ev_id e) < rank id)).
+
+  Definition RunSpec (asdep : bool) (s : state) (id : nat) (s' : state) : Prop :=
+    exists new,
+      trace s' = trace s ++ new /\
+      NoDup (map ev_id new) /\
+      (forall e, In e new -> EvOK s s' id asdep e) /\
+      (forall j, j <> id -> res s' j <> res s j ->
+         res s j = RNotRun /\ rank j < rank id /\ implemented (ts j) = true /\ LocalOK s' j) /\
+      LocalOK s' id /\
+      ((exists o, res s' id = classify o /\ In (mkEv id asdep o) new) \/
+       (res s' id = RDepFailed /\ forall e, In e new -> ev_id e <> id)).
+
+  Lemma RunSpec_done a s id s' : RunSpec a s id s' -> res s' id <> RNotRun.
+  Proof.
+    intros (new & _ & _ & _ & _ & _ & [[o [H _]]|[H _]]); rewrite H.
+    - apply classify_not_notrun.
+    - discriminate.
+  Qed.
+
+  Lemma Frame_of_run s d s1 id :
+    RunSpec true s d s1 -> res s d = RNotRun -> rank d < rank id -> implemented (ts d) = true ->
+    (exists new, Frame id s s1 new) /\ res s1 id = res s id.
+  Proof.
+    intros HR Hn Hr Hi. pose proof (RunSpec_done _ _ _ _ HR) as Hdone.
+    destruct HR as (new & T & D & E & C & L & P). split.
+    - exists new. split; [exact T|]. split; [exact D|]. split.
+      + intros e He. destruct (E e He) as (A & B & [[X Y]|(X & Y & Z)]).
+        * rewrite X. repeat split; auto. now rewrite <- X.
+        * repeat split; auto. lia.
+      + intros j Hj Hch. destruct (Nat.eq_dec j d) as [->|Hjd].
+        * repeat split; auto; apply L.
+        * destruct (C j Hjd Hch) as (A & B & I & L'). repeat split; auto; try lia; apply L'.
+    - destruct (result_eq_dec (res s1 id) (res s id)) as [X|X]; [exact X|].
+      assert (id <> d) by (intro Y; subst; lia).
+      destruct (C id H X) as (_ & B & _). lia.
+  Qed.
+
+  Lemma Frame_setdep id s d : Frame id s (set_depfailed s id d) [].
+  Proof.
+    split; [cbn; now rewrite app_nil_r|]. split; [constructor|]. split; [intros e []|].
+    intros j Hj Hch. exfalso. apply Hch. cbn. now apply upd_other.
+  Qed.
+
+  Definition RunfOK (runf : state -> nat -> option state) (id : nat) : Prop :=
+    forall s d s', rank d < rank id -> runf s d = Some s' -> RunSpec true s d s'.
+
+  Lemma loop_spec runf id : RunfOK runf id ->
+    forall ds s ok s' ok',
+      (forall d, In d ds -> rank d < rank id) ->
+      deps_loop ts runf id ds s ok = Some (s', ok') ->
+      exists new, Frame id s s' new /\
+        (res s' id = res s id \/ res s' id = RDepFailed) /\
+        (ok' = true -> ok = true /\ res s' id = res s id) /\
+        (forall d, In d ds -> implemented (ts d) = true ->
+           res s' d <> RNotRun /\ (ok' = true -> res s' d = RPass)) /\
+        (ok' = false -> ok = false \/
+           (res s' id = RDepFailed /\ exists d, In d ds /\ implemented (ts d) = true /\ res s' d <> RPass)).
+  Proof.
+    intros Hrunf. induction ds as [|d ds IH]; intros s ok s' ok' Hds Hl.
+    - cbn in Hl. inversion Hl; subst. exists []. split; [apply Frame_refl|].
+      repeat split; auto; try contradiction.
+    - cbn [deps_loop] in Hl.
+      assert (Hds' : forall d0, In d0 ds -> rank d0 < rank id) by (intros; apply Hds; now right).
+      assert (Hdr : rank d < rank id) by (apply Hds; now left).
+      assert (Hdid : d <> id) by (intro X; subst; lia).
+      destruct (is_notimpl (stat (ts d))) eqn:Hni.
+      + destruct (IH _ _ _ _ Hds' Hl) as (new & F & I1 & I2 & I3 & I4).
+        exists new. split; [exact F|]. split; [exact I1|]. split; [exact I2|]. split.
+        * intros d0 [<-|Hin] Hi0; [|now apply I3].
+          unfold implemented in Hi0. rewrite Hni in Hi0. discriminate.
+        * intro Hf. destruct (I4 Hf) as [X|(X & d0 & Y & Z)]; [now left|right].
+          split; auto. exists d0. split; [now right|exact Z].
+      + assert (Himp : implemented (ts d) = true) by (unfold implemented; now rewrite Hni).
+        (* running the dependency when it has no result yet *)
+        assert (Hstep : forall s1, (if is_notrun (res s d) then runf s d else Some s) = Some s1 ->
+                  (exists n1, Frame id s s1 n1) /\ res s1 id = res s id /\ res s1 d <> RNotRun).
+        { intros s1 H1. destruct (is_notrun (res s d)) eqn:Hnr.
+          - apply is_notrun_true in Hnr. pose proof (Hrunf _ _ _ Hdr H1) as HR.
+            destruct (Frame_of_run _ _ _ id HR Hnr Hdr Himp) as [X Y]. split; [exact X|]. split; [exact Y|].
+            apply (RunSpec_done _ _ _ _ HR).
+          - inversion H1; subst. split; [exists []; apply Frame_refl|]. split; auto.
+            now apply is_notrun_false. }
+        destruct (if is_notrun (res s d) then runf s d else Some s) as [s1|] eqn:H1; [|discriminate].
+        destruct (Hstep s1 eq_refl) as ([n1 F1] & Hid1 & Hd1).
+        destruct (is_pass (res s1 d)) eqn:Hp.
+        * apply is_pass_true in Hp.
+          destruct (IH _ _ _ _ Hds' Hl) as (n2 & F2 & I1 & I2 & I3 & I4).
+          exists (n1 ++ n2). split; [eapply Frame_trans; eauto|].
+          assert (Hd' : res s' d = RPass).
+          { rewrite (Frame_keeps _ _ _ _ _ F2 Hdid Hd1). exact Hp. }
+          split; [rewrite <- Hid1; exact I1|].
+          split; [intro X; destruct (I2 X); split; auto; congruence|].
+          split.
+          -- intros d0 [<-|Hin] Hi0; [|now apply I3].
+             split; [rewrite Hd'; discriminate|auto].
+          -- intro Hf. destruct (I4 Hf) as [X|(X & d0 & Y & Z)]; [now left|right].
+             split; auto. exists d0. split; [now right|exact Z].
+        * apply is_pass_false in Hp.
+          pose proof (Frame_setdep id s1 d) as Fs.
+          destruct (IH _ _ _ _ Hds' Hl) as (n2 & F2 & I1 & I2 & I3 & I4).
+          assert (F12 : Frame id s s' (n1 ++ n2)).
+          { eapply Frame_trans; [|exact F2]. rewrite <- (app_nil_r n1). eapply Frame_trans; eauto. }
+          exists (n1 ++ n2). split; [exact F12|].
+          assert (Hid2 : res (set_depfailed s1 id d) id = RDepFailed) by (cbn; apply upd_same).
+          assert (Hidf : res s' id = RDepFailed) by (destruct I1 as [X|X]; congruence).
+          assert (Hokf : ok' = false).
+          { destruct ok'; auto. destruct (I2 eq_refl). discriminate. }
+          assert (Hd2 : res (set_depfailed s1 id d) d = res s1 d) by (cbn; now apply upd_other).
+          assert (Hd' : res s' d = res s1 d).
+          { rewrite (Frame_keeps _ _ _ _ _ F2 Hdid); rewrite Hd2; auto. }
+          split; [now right|].
+          split; [intro X; congruence|].
+          split.
+          -- intros d0 [<-|Hin] Hi0; [|now apply I3].
+             split; [congruence|intro X; congruence].
+          -- intros _. right. split; auto. exists d. split; [now left|]. split; auto. congruence.
+  Qed.
+
+  Lemma run_spec : forall fuel asdep s id s',
+      run ts chk fuel asdep s id = Some s' -> RunSpec asdep s id s'.
+  Proof.
+    induction fuel as [|f IH]; intros asdep s id s' H; [discriminate|].
+    cbn [run] in H.
+    destruct (deps_loop ts (run ts chk f true) id (deps (ts id)) s true) as [[s1 ok']|] eqn:Hl; [|discriminate].
+    assert (Hrf : RunfOK (run ts chk f true) id) by (intros s0 d s0' _ H0; now apply IH).
+    destruct (loop_spec _ id Hrf _ _ _ _ _ (fun d Hd => Hrank id d Hd) Hl) as (new & F & I1 & I2 & I3 & I4).
+    pose proof F as (T & D & E & C).
+    assert (Hnid : forall e, In e new -> ev_id e <> id).
+    { intros e He X. destruct (E e He) as (_ & _ & _ & _ & R). rewrite X in R. lia. }
+    assert (Hdep : forall j d, rank j <= rank id -> In d (deps (ts j)) -> d <> id).
+    { intros j d Hj Hin X. subst d. specialize (Hrank _ _ Hin). lia. }
+    destruct ok'.
+    - inversion H; subst s'; clear H.
+      set (o := chk id (evals id (trace s1))).
+      destruct (I2 eq_refl) as [_ Hid].
+      exists (new ++ [mkEv id asdep o]).
+      split; [rewrite trace_set_checked, T, app_assoc; reflexivity|].
+      split.
+      { rewrite map_app. apply NoDup_app_intro; auto.
+        - cbn. constructor; [intros []|constructor].
+        - intros x H1 [<-|[]]. apply in_map_iff in H1. destruct H1 as [e [X Y]]. exact (Hnid e Y X). }
+      split.
+      { intros e He. apply in_app_or in He. destruct He as [He|[<-|[]]].
+        - destruct (E e He) as (A & B & Cc & Dd & R). split; [exact A|]. split.
+          + rewrite res_set_checked_other; auto.
+          + right; auto.
+        - cbn. split; [exists (evals id (trace s1)); reflexivity|]. split.
+          + rewrite res_set_checked_same. apply classify_not_notrun.
+          + left; auto. }
+      split.
+      { intros j Hj Hch. rewrite res_set_checked_other in Hch by auto.
+        destruct (C j Hj Hch) as (A & B & I & L). split; [exact A|]. split; [exact B|]. split; [exact I|].
+        apply (LocalOK_ext s1); auto.
+        - now apply res_set_checked_other.
+        - intros d Hin _. apply res_set_checked_other. apply (Hdep j); auto. lia. }
+      split.
+      { split.
+        - intros d Hin Hi. rewrite res_set_checked_other by (apply (Hdep id); auto). now apply I3.
+        - right. exists (evals id (trace s1)). split; [apply res_set_checked_same|].
+          intros d Hin Hi. rewrite res_set_checked_other by (apply (Hdep id); auto). now apply I3. }
+      left. exists o. split; [apply res_set_checked_same|]. apply in_or_app. right. now left.
+    - inversion H; subst s'; clear H.
+      destruct (I4 eq_refl) as [X|(X & d & Hin & Hi & Hnp)]; [discriminate|].
+      exists new. split; [exact T|]. split; [exact D|]. split.
+      { intros e He. destruct (E e He) as (A & B & Cc & Dd & R). split; [exact A|]. split; [exact B|]. right; auto. }
+      split; [exact C|]. split.
+      { split.
+        - intros d0 Hin0 Hi0. now apply I3.
+        - left. split; auto. exists d. auto. }
+      right. split; auto.
+  Qed.
+
+  Lemma NoDup_map_inj {A B} (f : A -> B) (l : list A) a b :
+    NoDup (map f l) -> In a l -> In b l -> f a = f b -> a = b.
+  Proof.
+    induction l as [|x l IH]; cbn; intros Hn Ha Hb E; [contradiction|].
+    inversion Hn; subst.
+    destruct Ha as [<-|Ha], Hb as [<-|Hb]; auto.
+    - exfalso. apply H1. rewrite E. now apply in_map.
+    - exfalso. apply H1. rewrite <- E. now apply in_map.
+  Qed.
+
+  Lemma NoDup_map_filter {A B} (f : A -> B) (p : A -> bool) (l : list A) :
+    NoDup (map f l) -> NoDup (map f (filter p l)).
+  Proof.
+    induction l as [|x l IH]; cbn; intro Hn; [constructor|].
+    inversion Hn; subst. destruct (p x); cbn; auto.
+    constructor; auto. intro X. apply H1. apply in_map_iff in X. destruct X as [y [E Y]].
+    apply filter_In in Y. rewrite <- E. apply in_map. apply Y.
+  Qed.
+
+  (** ** the clauses of the property for one call of Test.Run
+      (any initial results, any time-varying checks) *)
+
+  Theorem pass_iff fuel asdep s id s' new :
+    run ts chk fuel asdep s id = Some s' -> trace s' = trace s ++ new ->
+    (res s' id = RPass <->
+     In (mkEv id asdep o_pass) new /\
+     forall d, In d (deps (ts id)) -> implemented (ts d) = true -> res s' d = RPass).
+  Proof.
+    intros H T. destruct (run_spec _ _ _ _ _ H) as (new0 & T0 & D & E & C & [Hdone L] & P).
+    rewrite T0 in T. apply app_inv_head in T. subst new0.
+    destruct P as [[o [Hr Hin]]|[Hr Hno]].
+    - assert (Hp : deps_pass s' id).
+      { destruct L as [[X _]|[n [_ X]]]; auto. rewrite Hr in X. now apply classify_not_depfailed in X. }
+      split.
+      + intro X. rewrite Hr in X. apply classify_pass in X. subst o. split; auto.
+      + intros [X _]. assert (Y : mkEv id asdep o_pass = mkEv id asdep o) by (eapply NoDup_map_inj; eauto).
+        inversion Y; subst o. rewrite Hr. reflexivity.
+    - split; [rewrite Hr; discriminate|]. intros [X _]. exfalso. exact (Hno _ X eq_refl).
+  Qed.
+
+  Theorem dep_blocks fuel asdep s id s' new d :
+    run ts chk fuel asdep s id = Some s' -> trace s' = trace s ++ new ->
+    In d (deps (ts id)) -> implemented (ts d) = true -> res s' d <> RPass ->
+    res s' id = RDepFailed /\ forall e, In e new -> ev_id e <> id.
+  Proof.
+    intros H T Hin Hi Hnp. destruct (run_spec _ _ _ _ _ H) as (new0 & T0 & D & E & C & [Hdone L] & P).
+    rewrite T0 in T. apply app_inv_head in T. subst new0.
+    destruct P as [[o [Hr Hino]]|[Hr Hno]]; [|auto].
+    exfalso. destruct L as [[X _]|[n [_ X]]].
+    - rewrite Hr in X. now apply classify_not_depfailed in X.
+    - apply Hnp. now apply X.
+  Qed.
+
+  Theorem once_per_call fuel asdep s id s' new :
+    run ts chk fuel asdep s id = Some s' -> trace s' = trace s ++ new -> NoDup (map ev_id new).
+  Proof.
+    intros H T. destruct (run_spec _ _ _ _ _ H) as (new0 & T0 & D & _).
+    rewrite T0 in T. apply app_inv_head in T. now subst new0.
+  Qed.
+
+  Lemma run_keeps fuel asdep s id s' j :
+    run ts chk fuel asdep s id = Some s' -> j <> id -> res s j <> RNotRun -> res s' j = res s j.
+  Proof.
+    intros H Hj Hn. destruct (run_spec _ _ _ _ _ H) as (new & _ & _ & _ & C & _).
+    destruct (result_eq_dec (res s' j) (res s j)) as [X|X]; [exact X|].
+    destruct (C j Hj X) as [Y _]. contradiction.
+  Qed.
+
+  Lemma run_mono fuel asdep s id s' j :
+    run ts chk fuel asdep s id = Some s' -> res s j <> RNotRun -> res s' j <> RNotRun.
+  Proof.
+    intros H Hn. destruct (Nat.eq_dec j id) as [->|Hj].
+    - apply (RunSpec_done asdep s). now apply (run_spec fuel).
+    - rewrite (run_keeps _ _ _ _ _ _ H Hj Hn). exact Hn.
+  Qed.
+
+  (** ** a whole run: every listed test through Test.Run, in any order, with
+      repetitions, from any initial results *)
+  Lemma run_list_spec : forall order fuel s s' rs,
+      run_list ts chk fuel s order = Some (s', rs) ->
+      exists new, trace s' = trace s ++ new /\
+        NoDup (map ev_id (filter ev_dep new)) /\
+        (forall e, In e new -> ev_dep e = true -> res s (ev_id e) = RNotRun) /\
+        (forall e, In e new -> res s' (ev_id e) <> RNotRun) /\
+        (forall j, res s j <> RNotRun -> res s' j <> RNotRun).
+  Proof.
+    induction order as [|i rest IH]; intros fuel s s' rs H.
+    - cbn in H. inversion H; subst. exists []. rewrite app_nil_r. repeat split; auto; try constructor; contradiction.
+    - cbn [run_list] in H.
+      destruct (run ts chk fuel false s i) as [s1|] eqn:H1; [|discriminate].
+      destruct (run_list ts chk fuel s1 rest) as [[s2 rs2]|] eqn:H2; [|discriminate].
+      inversion H; subst s' rs; clear H.
+      destruct (IH _ _ _ _ H2) as (n2 & T2 & D2 & A2 & B2 & M2).
+      destruct (run_spec _ _ _ _ _ H1) as (n1 & T1 & D1 & E1 & _).
+      exists (n1 ++ n2). split; [rewrite T2, T1, app_assoc; reflexivity|].
+      assert (A1 : forall e, In e n1 -> ev_dep e = true -> res s (ev_id e) = RNotRun).
+      { intros e He Hd. destruct (E1 e He) as (_ & _ & [[_ X]|(_ & X & _)]); [congruence|exact X]. }
+      assert (B1 : forall e, In e n1 -> res s1 (ev_id e) <> RNotRun).
+      { intros e He. now destruct (E1 e He) as (_ & X & _). }
+      split.
+      { rewrite filter_app, map_app. apply NoDup_app_intro; auto.
+        - now apply NoDup_map_filter.
+        - intros x X1 X2. apply in_map_iff in X1. destruct X1 as [e1 [Y1 Z1]].
+          apply in_map_iff in X2. destruct X2 as [e2 [Y2 Z2]]. subst x.
+          apply filter_In in Z1. apply filter_In in Z2.
+          apply (B1 e1); [apply Z1|]. rewrite <- Y2. apply A2; apply Z2. }
+      split.
+      { intros e He Hd. apply in_app_or in He. destruct He as [He|He]; [now apply A1|].
+        destruct (result_eq_dec (res s (ev_id e)) RNotRun) as [X|X]; [exact X|].
+        exfalso. apply (run_mono _ _ _ _ _ _ H1 X). now apply A2. }
+      split.
+      { intros e He. apply in_app_or in He. destruct He as [He|He]; [|now apply B2].
+        apply M2. now apply B1. }
+      intros j Hj. apply M2. now apply (run_mono _ _ _ _ _ _ H1).
+  Qed.
+
+  Theorem dep_once fuel s order s' rs new :
+    run_list ts chk fuel s order = Some (s', rs) -> trace s' = trace s ++ new ->
+    NoDup (map ev_id (filter ev_dep new)).
+  Proof.
+    intros H T. destruct (run_list_spec _ _ _ _ _ H) as (new0 & T0 & D & _).
+    rewrite T0 in T. apply app_inv_head in T. now subst new0.
+  Qed.
+
+  (** ** deterministic checks: a verdict, once stored, never changes, and the
+      stored results always explain each other *)
+  Definition Inv (s : state) : Prop := forall j, res s j <> RNotRun -> LocalOK s j.
+
+  Lemma Inv_init : Inv init_state.
+  Proof. intros j H. cbn in H. congruence. Qed.
+
+  Lemma run_stable fuel asdep s id s' :
+    deterministic chk -> Inv s -> run ts chk fuel asdep s id = Some s' ->
+    (forall j, res s j <> RNotRun -> res s' j = res s j) /\ Inv s'.
+  Proof.
+    intros Hdet HI H. pose proof (run_spec _ _ _ _ _ H) as (new & _ & _ & _ & C & L & _).
+    assert (Hdepk : forall d, In d (deps (ts id)) -> res s d <> RNotRun -> res s' d = res s d).
+    { intros d Hin Hn. apply (run_keeps _ _ _ _ _ _ H); auto.
+      intro X. subst d. specialize (Hrank _ _ Hin). lia. }
+    assert (Hid : res s id <> RNotRun -> res s' id = res s id).
+    { intro Hn. destruct (HI id Hn) as [Hdone [[Hr [d [Hin [Hi Hnp]]]]|[n [Hr Hp]]]].
+      - destruct L as [_ [[X _]|[n [_ X]]]]; [congruence|].
+        exfalso. apply Hnp. rewrite <- (Hdepk d Hin (Hdone d Hin Hi)). now apply X.
+      - destruct L as [_ [[_ [d [Hin [Hi Hnp]]]]|[n' [X _]]]].
+        + exfalso. apply Hnp. rewrite (Hdepk d Hin (Hdone d Hin Hi)). now apply Hp.
+        + rewrite X, Hr. now rewrite (Hdet id n' n). }
+    assert (Hall : forall j, res s j <> RNotRun -> res s' j = res s j).
+    { intros j Hn. destruct (Nat.eq_dec j id) as [->|Hj]; [now apply Hid|].
+      now apply (run_keeps _ _ _ _ _ _ H). }
+    split; [exact Hall|].
+    intros j Hn. destruct (Nat.eq_dec j id) as [->|Hj]; [exact L|].
+    destruct (result_eq_dec (res s' j) (res s j)) as [X|X].
+    - rewrite X in Hn. apply (LocalOK_ext s); auto.
+      intros d Hin Hi. apply Hall. destruct (HI j Hn) as [Hdone _]. now apply Hdone.
+    - destruct (C j Hj X) as (_ & _ & _ & Y). exact Y.
+  Qed.
+
+  Lemma run_list_stable : forall order fuel s s' rs,
+      deterministic chk -> Inv s -> run_list ts chk fuel s order = Some (s', rs) ->
+      (forall j, res s j <> RNotRun -> res s' j = res s j) /\ Inv s'.
+  Proof.
+    induction order as [|i rest IH]; intros fuel s s' rs Hdet HI H.
+    - cbn in H. inversion H; subst. auto.
+    - cbn [run_list] in H.
+      destruct (run ts chk fuel false s i) as [s1|] eqn:H1; [|discriminate].
+      destruct (run_list ts chk fuel s1 rest) as [[s2 rs2]|] eqn:H2; [|discriminate].
+      inversion H; subst s' rs; clear H.
+      destruct (run_stable _ _ _ _ _ Hdet HI H1) as [K1 I1].
+      destruct (IH _ _ _ _ Hdet I1 H2) as [K2 I2]. split; auto.
+      intros j Hn. rewrite K2; [now apply K1|]. rewrite K1; auto.
+  Qed.
+
+  Theorem final_consistent fuel order s' rs j :
+    deterministic chk -> run_list ts chk fuel init_state order = Some (s', rs) ->
+    res s' j <> RNotRun ->
+    (res s' j = RPass <->
+       classify (chk j 0) = RPass /\
+       forall d, In d (deps (ts j)) -> implemented (ts d) = true -> res s' d = RPass)
+    /\ ((exists d, In d (deps (ts j)) /\ implemented (ts d) = true /\ res s' d <> RPass) ->
+        res s' j = RDepFailed).
+  Proof.
+    intros Hdet H Hn. destruct (run_list_stable _ _ _ _ _ Hdet Inv_init H) as [_ HI].
+    destruct (HI j Hn) as [Hdone [[Hr [d [Hin [Hi Hnp]]]]|[n [Hr Hp]]]].
+    - split; [|auto]. split; [congruence|]. intros [_ X]. exfalso. apply Hnp. now apply X.
+    - rewrite (Hdet j n 0) in Hr. split.
+      + split; [intro X; split; [congruence|exact Hp]|]. intros [X _]. congruence.
+      + intros [d [Hin [Hi Hnp]]]. exfalso. apply Hnp. now apply Hp.
+  Qed.
+
+  Theorem verdict_stable fuel o1 o2 s1 rs1 s2 rs2 j :
+    deterministic chk ->
+    run_list ts chk fuel init_state o1 = Some (s1, rs1) ->
+    run_list ts chk fuel s1 o2 = Some (s2, rs2) ->
+    res s1 j <> RNotRun -> res s2 j = res s1 j.
+  Proof.
+    intros Hdet H1 H2 Hn. destruct (run_list_stable _ _ _ _ _ Hdet Inv_init H1) as [_ I1].
+    destruct (run_list_stable _ _ _ _ _ Hdet I1 H2) as [K _]. now apply K.
+  Qed.
+
+  (** ** RunTestsSilent *)
+  Lemma run_silent_frame : forall order fuel s s' r,
+      run_silent ts chk fuel s order = Some (s', r) ->
+      forall j, ~ In j order -> res s j <> RNotRun -> res s' j = res s j.
+  Proof.
+    induction order as [|i rest IH]; intros fuel s s' r H j Hj Hn.
+    - cbn in H. inversion H; subst. reflexivity.
+    - cbn [run_silent] in H.
+      destruct (run ts chk fuel false s i) as [s1|] eqn:H1; [|discriminate].
+      assert (Hji : j <> i) by (intro X; apply Hj; now left).
+      assert (Hjr : ~ In j rest) by (intro X; apply Hj; now right).
+      pose proof (run_keeps _ _ _ _ _ _ H1 Hji Hn) as K1.
+      assert (Hn1 : res s1 j <> RNotRun) by congruence.
+      destruct (negb (run_ret s1 i) && required (ts i)).
+      + destruct (is_notimpl (stat (ts i))).
+        * rewrite (IH _ _ _ _ H j Hjr Hn1). exact K1.
+        * destruct (is_interr (res s1 i)); inversion H; subst; exact K1.
+      + rewrite (IH _ _ _ _ H j Hjr Hn1). exact K1.
+  Qed.
+
+  Theorem silent_sound : forall order fuel s s',
+      run_silent ts chk fuel s order = Some (s', SOk) ->
+      forall i, In i order -> required (ts i) = true -> implemented (ts i) = true -> res s' i = RPass.
+  Proof.
+    induction order as [|i0 rest IH]; intros fuel s s' H i Hin Hreq Himp; [contradiction|].
+    cbn [run_silent] in H.
+    destruct (run ts chk fuel false s i0) as [s1|] eqn:H1; [|discriminate].
+    destruct (in_dec Nat.eq_dec i rest) as [Hir|Hir].
+    - destruct (negb (run_ret s1 i0) && required (ts i0)).
+      + destruct (is_notimpl (stat (ts i0))).
+        * eapply IH; eauto.
+        * destruct (is_interr (res s1 i0)); discriminate.
+      + eapply IH; eauto.
+    - destruct Hin as [->|Hin]; [|contradiction].
+      unfold implemented in Himp. apply Bool.negb_true_iff in Himp.
+      rewrite Hreq, Himp, Bool.andb_true_r in H.
+      destruct (run_ret s1 i) eqn:Hret; cbn [negb] in H.
+      + unfold run_ret in Hret. apply is_pass_true in Hret.
+        rewrite (run_silent_frame _ _ _ _ _ H i Hir); [exact Hret|congruence].
+      + destruct (is_interr (res s1 i)); discriminate.
+  Qed.
+
+  (** ** termination on acyclic graphs *)
+  Lemma loop_total runf id : forall ds,
+      (forall s d, In d ds -> exists s', runf s d = Some s') ->
+      forall s ok, exists r, deps_loop ts runf id ds s ok = Some r.
+  Proof.
+    induction ds as [|d ds IH]; intros Hr s ok; cbn [deps_loop]; [eauto|].
+    assert (Hr' : forall s d0, In d0 ds -> exists s', runf s d0 = Some s') by (intros; apply Hr; now right).
+    destruct (is_notimpl (stat (ts d))); [now apply IH|].
+    assert (X : exists s1, (if is_notrun (res s d) then runf s d else Some s) = Some s1).
+    { destruct (is_notrun (res s d)); [apply Hr; now left|eauto]. }
+    destruct X as [s1 ->]. destruct (is_pass (res s1 d)); now apply IH.
+  Qed.
+
+  Theorem run_total : forall fuel id, rank id < fuel ->
+      forall asdep s, exists s', run ts chk fuel asdep s id = Some s'.
+  Proof.
+    induction fuel as [|f IH]; intros id Hlt asdep s; [lia|].
+    cbn [run].
+    destruct (loop_total (run ts chk f true) id (deps (ts id))) with (s := s) (ok := true) as [[s1 ok'] ->].
+    - intros s0 d Hin. apply IH. specialize (Hrank _ _ Hin). lia.
+    - destruct ok'; eauto.
+  Qed.
 End Spec.
+
+(** * dependency cycles: the model answers [None] for every fuel (the Go code
+    recurses until the stack is exhausted) *)
+Definition cyc1 : nat -> test := fun _ => mkTest true Implemented [0].
+
+Lemma run_cycle_diverges chk : forall fuel a s, res s 0 = RNotRun -> run cyc1 chk fuel a s 0 = None.
+Proof.
+  induction fuel as [|f IH]; intros a s H; [reflexivity|].
+  cbn [run deps cyc1 deps_loop stat is_notimpl]. rewrite H. cbn [is_notrun]. now rewrite IH.
+Qed.
+
+Definition cyc2 : nat -> test := fun i => match i with O => mkTest true Implemented [1] | _ => mkTest true Implemented [0] end.
+
+Lemma run_cycle2_diverges chk : forall fuel a s, res s 0 = RNotRun -> res s 1 = RNotRun ->
+    run cyc2 chk fuel a s 0 = None /\ run cyc2 chk fuel a s 1 = None.
+Proof.
+  induction fuel as [|f IH]; intros a s H0 H1; [split; reflexivity|].
+  destruct (IH true s H0 H1) as [A B].
+  split; cbn [run deps cyc2 deps_loop stat is_notimpl].
+  - rewrite H1. cbn [is_notrun]. now rewrite B.
+  - rewrite H0. cbn [is_notrun]. now rewrite A.
+Qed.
+
+(** * witnesses *)
+Definition ts2 : nat -> test :=
+  fun i => match i with O => mkTest true Implemented [1] | _ => mkTest false Implemented [] end.
+Definition rank2 : nat -> nat := fun i => match i with O => 1 | _ => 0 end.
+
+Lemma ts2_acyclic : forall id d, In d (deps (ts2 id)) -> rank2 d < rank2 id.
+Proof. intros [|id] d; cbn; [intros [<-|[]]; cbn; lia|intros []]. Qed.
+
+Definition chk_pass : nat -> nat -> outcome3 := fun _ _ => o_pass.
+(** test 1 passes the first time it is evaluated and fails afterwards *)
+Definition chk_flip : nat -> nat -> outcome3 :=
+  fun id n => match id, n with 1, S _ => (false, false, false) | _, _ => o_pass end.
+
+Lemma rerun_witness :
+  exists s' rs, run_list ts2 chk_pass 3 init_state [0; 1] = Some (s', rs) /\ evals 1 (trace s') = 2.
+Proof. eexists. eexists. split; [vm_compute; reflexivity|vm_compute; reflexivity]. Qed.
+
+Lemma flip_witness :
+  exists s' rs, run_list ts2 chk_flip 3 init_state [0; 1] = Some (s', rs) /\
+                res s' 0 = RPass /\ In 1 (deps (ts2 0)) /\ implemented (ts2 1) = true /\ res s' 1 = RFail.
+Proof.
+  eexists. eexists. split; [vm_compute; reflexivity|].
+  split; [vm_compute; reflexivity|]. split; [cbn; auto|]. split; vm_compute; reflexivity.
+Qed.
+
+Lemma flip_witness_silent :
+  exists s', run_silent ts2 chk_flip 3 init_state [0; 1] = Some (s', SOk) /\
+             res s' 0 = RPass /\ res s' 1 = RFail.
+Proof. eexists. split; [vm_compute; reflexivity|]. split; vm_compute; reflexivity. Qed.
